@@ -3,6 +3,7 @@ package c13
 import (
 	"fmt"
 	"os"
+	"runtime"
 	"sort"
 	"strconv"
 	"strings"
@@ -686,11 +687,16 @@ func TestDupIndependent(t *testing.T) {
 		// (C13_SKIP_POINTER_CHECK is a knob for sensitivity experiments only: it
 		// shows that the mutate-and-compare oracle below also works alone)
 		if _, isPrim := orig.Type.(expr.Primitive); !isPrim && orig.Type != expr.DataType(expr.Empty) && os.Getenv("C13_SKIP_POINTER_CHECK") == "" {
-			po, pc := mutablePointers(orig), mutablePointers(cp)
+			ro, rc := orig, cp
 			if !useAtt {
-				// only the types were copied: compare below fresh wrapper attributes
-				po, pc = mutablePointers(&expr.AttributeExpr{Type: orig.Type}), mutablePointers(&expr.AttributeExpr{Type: cp.Type})
+				// only the types were copied: compare below two wrapper attributes
+				ro, rc = &expr.AttributeExpr{Type: orig.Type}, &expr.AttributeExpr{Type: cp.Type}
 			}
+			po, pc := mutablePointers(ro), mutablePointers(rc)
+			// identities are addresses: both graphs must stay alive until compared
+			runtime.KeepAlive(ro)
+			runtime.KeepAlive(rc)
+			runtime.KeepAlive(b)
 			for k, path := range pc {
 				if opath, shared := po[k]; shared {
 					t.Fatalf("the copy shares a mutable %s with the original: copy %s is original %s", k.kind, path, opath)
